@@ -160,3 +160,49 @@ for _st in (True, False):
             _cls = type('ReadVariantHeaders', (ReadVariantHeaders,), dict(structured=_st, state=_state, want_padding=_wp))
             register(_cls, 'read.py::SgzReader.read_variant_headers', ['C15', 'C08' if not _st else 'C04'], [CFG_DEFAULT[3]], modes=('file',),
                      tag=f'{"regular" if _st else "irregular"},{_state},include_padding={_wp}')
+
+
+class GenTraceHeaderIrregular(GenTraceHeader):
+    """gen_trace_header(i) on an irregular file: every stored field is the entry of the i-th POPULATED grid position of its footer array
+    (population = stored inline number != 0), whatever load_all_headers says"""
+    structured = False
+
+    def inputs(self, c):
+        d = GenTraceHeader.inputs(self, c)
+        rd = d['self']
+        g = d['_g']
+        offs = d['_offs']
+        # field 189 must be a stored field (it defines the population mask): stored fields 1 and 189
+        d['_spec_mask'] = SArray((mul(g.nI, g.nX),), lambda idx: ops_cmp('!=', footer_word(add(offs[1].value, mul(4, idx[0]))), 0), 'bool')
+        return d
+
+    def raises(self, c, a):
+        return {}
+
+    def may_raise_at(self, c, a):
+        return ('IndexError',)      # numpy sequence semantics on the populated list
+
+    def post(self, c, a, result):
+        g = a['self'].geo
+        c.ensure(mk_bool(isinstance(result, dict) and set(result.keys()) == {1, 5, 189, 193}), 'all_template_fields_present')
+        sels = c.ghost.get('mask_selects', [])
+        c.ensure(mk_bool(len(sels) == 2), 'one_selection_per_stored_field')
+        j = c.sym_int('gj', lo=0, name='grid_position')
+        c.assume(lt(j, mul(g.nI, g.nX)))
+        for (k, off) in ((1, a['_offs'][0]), (189, a['_offs'][1])):
+            got = result.get(k)
+            got = getattr(got, 'value', got)
+            match = [s for s in sels if s[0] is a['self'].fields['variant_headers'].get(k)]
+            c.ensure(mk_bool(len(match) == 1), f'field{k}.selected_from_its_own_array')
+            if len(match) != 1:
+                continue
+            ma, kk, p = match[0]
+            c.ensure(eq(ma.arr.fn((j,)), footer_word(add(off.value, mul(4, j)))) and eq(ma.arr.shape[0], mul(g.nI, g.nX)), f'field{k}.array_is_the_whole_footer_array')
+            c.ensure(Iff(ma.mask.fn((j,)), a['_spec_mask'].fn((j,))), f'field{k}.populated_positions_by_the_inline_number_array')
+            c.ensure(Or(eq(kk, a['index']), eq(kk, add(a['index'], SInt(ma.count)))), f'field{k}.entry_of_the_index_th_populated_position')
+            c.ensure(eq(got, footer_word(add(off.value, mul(4, p)))), f'field{k}.value')
+        c.ensure(eq(result.get(5), a['_const']), 'constant_field_from_template')
+
+
+for _la in (False, True):
+    register(type('GenTraceHeaderIrregular', (GenTraceHeaderIrregular,), dict(load_all=_la)), 'read.py::SgzReader.gen_trace_header', ['C04', 'C06', 'C08', 'C15'], [CFG_DEFAULT[3]], modes=('file',), tag=f'irregular,load_all={_la}')
